@@ -461,6 +461,86 @@ Section BlockTrees.
   Proof. exact block_engine_box_sizing. Qed.
 End BlockTrees.
 
+(* ---------------------------------------------------------------------------------------------------------------- *)
+(* The REAL absolute-item routine and the root glue (wave 5).  `abs_child_block` (Model/BlockAbs.v) = one iteration of block.rs
+   perform_absolute_layout_on_absolute_children built from the translated kernel Gen/AbsPosGen.v; its style resolution is the
+   `block_resolve` C12_abs_block is about, and the adapter from the block vocabulary commutes with the rewrite, so AbsChildRel at
+   bb_rel is PROVED for it: the parametric theorems apply without premise on the algorithms.  `block_layout_pass` (Model/BlockRoot.v)
+   adds compute_root_layout (C12_root for the root's known dimensions; the root's own layout reads no box-sizing field).  This is
+   the engine instance the whole-tree correspondence `vh blocktree cases` compares with the implementation bit for bit. *)
+From TV Require Model.BlockAbs Model.BlockRoot Model.BlockAbsExample Proofs.BlockAbsRel Proofs.BlockRootRel.
+Section BlockTreesReal.
+  Import TV.Gen.BlockGen TV.Model.Block TV.Model.ScaleBase TV.Model.ScaleBlock TV.Proofs.ScaleKit.
+  Import TV.Model.Engine TV.Model.EngineRel TV.Proofs.EngineRelProofs.
+  Import TV.Model.BlockAlg TV.Model.BlockEngine TV.Model.BlockEngineRel TV.Model.BlockEngineExample.
+  Import TV.Model.BlockAbs TV.Model.BlockRoot TV.Model.BlockAbsExample.
+  Import TV.Proofs.BlockAlgRel TV.Proofs.EngineHomog TV.Proofs.EngineBoxSizing TV.Proofs.EngineExamples TV.Proofs.BlockAbsRel TV.Proofs.BlockRootRel.
+
+  Theorem C12_block_absolute_routine_box_sizing_blind : AbsChildRel 1 bb_rel (abs_child_block (T := XQ)).
+  Proof. exact abs_child_block_box_sizing_blind. Qed.
+
+  Theorem C12_block_engine_real_box_sizing_blind :
+    BoxSizingBlind (BNode XQ) (BIn XQ) (ChildOut XQ) (BLayout XQ) bn_ok bn_tb bn_elig (bin_rel 1) (bout_rel 1) (blay_rel 1)
+                   (bl_algo block_pre abs_child_block).
+  Proof.
+    apply bl_algo_box_sizing_blind; [apply (block_pre_rel 1 Q01 bb_rel bb_weak)|exact abs_child_block_box_sizing_blind].
+  Qed.
+
+  (* the general invariant: trees that differ by rewriting any subset of the eligible nodes, caches / stored layouts equal as
+     numbers, inputs equal as numbers, the same fuel *)
+  Theorem C12_block_engine_real_instance :
+    forall f t t' i i',
+      trel (BNode XQ) (BIn XQ) (ChildOut XQ) (BLayout XQ) bnode_bb (bin_rel 1) (bout_rel 1) (blay_rel 1) t t' -> bin_rel 1 i i' ->
+      oprel (res_rel (BNode XQ) (BIn XQ) (ChildOut XQ) (BLayout XQ) bnode_bb (bin_rel 1) (bout_rel 1) (blay_rel 1))
+            (bl_memo block_pre abs_child_block f t i) (bl_memo block_pre abs_child_block f t' i').
+  Proof.
+    apply block_engine_box_sizing; [apply (block_pre_rel 1 Q01 bb_rel bb_weak)|exact abs_child_block_box_sizing_blind].
+  Qed.
+
+  (* a whole layout pass on a fresh tree, compute_root_layout included: the nodes at the paths selected by ANY `w` -- the root
+     too -- rewritten when eligible, the SAME available space: both passes fail (fuel) or both succeed and every node's stored
+     unrounded layout is equal as numbers *)
+  Theorem C12_block_layout_pass :
+    forall f (t : sk (BNode XQ)) (w : list nat -> bool) av,
+      sk_all (BNode XQ) bn_ok t ->
+      oprel (Forall2 (blay_rel 1)) (block_layout_pass block_pre abs_child_block f t av)
+            (block_layout_pass block_pre abs_child_block f (sk_map_where (BNode XQ) bn_to_border_box w t) av).
+  Proof.
+    intros f t w av Hall.
+    apply block_layout_pass_bb; [apply (block_pre_rel 1 Q01 bb_rel bb_weak)|exact abs_child_block_box_sizing_blind| |].
+    - apply rewrite_where_bb. exact Hall.
+    - split; [apply bav_rel1_refl|apply bav_rel1_refl].
+  Qed.
+
+  (* any sequence of passes on the same tree, from ANY pair of related trees *)
+  Theorem C12_block_layout_passes :
+    forall f avs t t',
+      trel (BNode XQ) (BIn XQ) (ChildOut XQ) (BLayout XQ) bnode_bb (bin_rel 1) (bout_rel 1) (blay_rel 1) t t' ->
+      oprel (Forall2 (Forall2 (blay_rel 1))) (block_passes block_pre abs_child_block f t avs) (block_passes block_pre abs_child_block f t' avs).
+  Proof.
+    intros f avs t t' Ht.
+    apply block_passes_bb; [apply (block_pre_rel 1 Q01 bb_rel bb_weak)|exact abs_child_block_box_sizing_blind| |exact Ht].
+    induction avs as [|a avs IH]; constructor; [split; apply bav_rel1_refl|exact IH].
+  Qed.
+
+  (* non-vacuity on the tree of Model/BlockAbsExample.v (scroll container; absolute children sized by insets, placed at the
+     bottom right corner, an absolute container at its static position): all eligible nodes / only the root / all but the root
+     rewritten -- the absolute leaf P (content-box, height 30, padding 2) becomes border-box height 34 -- same layouts *)
+  Example C12_block_layout_pass_example :
+    sk_all (BNode XQ) bn_ok exr_tree /\
+    (match ex_rewrite ex_all exr_tree with
+     | SNode _ _ (_ :: SNode _ p _ :: _) => st_content_box (bn_style p) = false /\ st_size (bn_style p) = mkSize Auto (Len (Fin 34))
+     | _ => False
+     end) /\
+    exr_same_ok exr_tree (ex_rewrite ex_all exr_tree) exr_avail = true /\
+    exr_same_ok exr_tree (ex_rewrite ex_root_only exr_tree) exr_avail = true /\
+    exr_same_ok exr_tree (ex_rewrite ex_below_root exr_tree) exr_avail = true /\
+    exr_same_ok exr_tree (ex_rewrite ex_all exr_tree) exr_avail_max = true.
+  Proof.
+    split; [apply ex_all_ok|]. split; [vm_compute; split; reflexivity|]. repeat split; vm_compute; reflexivity.
+  Qed.
+End BlockTreesReal.
+
 Print Assumptions C12_engine.
 Print Assumptions C12_engine_fresh.
 Print Assumptions C12_rel1_is_xeq.
@@ -474,3 +554,9 @@ Print Assumptions C12_block_engine_instance.
 Print Assumptions C12_block_engine_rewritten_layouts.
 Print Assumptions C12_block_engine_example.
 Print Assumptions C12_block_engine_instance_parametric.
+Print Assumptions C12_block_absolute_routine_box_sizing_blind.
+Print Assumptions C12_block_engine_real_box_sizing_blind.
+Print Assumptions C12_block_engine_real_instance.
+Print Assumptions C12_block_layout_pass.
+Print Assumptions C12_block_layout_passes.
+Print Assumptions C12_block_layout_pass_example.
